@@ -3,4 +3,5 @@ From AQ Require Import Lib.Bytes Lib.ExtractBase Lib.Keccak Keystore.KeystoreMod
 Require Extraction.
 Require Import ExtrOcamlBasic.
 Extraction "../ocaml/keystore/model.ml" base_anchor keccak256
-  hex_encode hex_decode padded_big_bytes get_kdf_key decrypt_key get_key encrypt_key.
+  hex_encode hex_decode padded_big_bytes get_kdf_key decrypt_key get_key encrypt_key
+  ks_step ks_run ks_init is_unlocked authenticates.
